@@ -400,6 +400,111 @@ Theorem C17_fish_generate_nonvacuous :
 Proof. exact generate_fish_text_invariance_hyps. Qed.
 Print Assumptions C17_fish_generate_nonvacuous.
 (* ---- end fish generator model ---- *)
+(* ---- nushell generator model ---- *)
+(** Whole-module structure invariance for nushell.  [Complete/NushellModel.v] is a byte-exact transcription of
+    clap_complete_nushell/src/lib.rs (compared with the real generator's module on every run, streams [nushell-model]
+    of C16 and C17); [Complete/NushellProofs.v] proves it equal to a specification in pieces ([C16_nushell_model_is_pieces]):
+    [NFx b] text the generator writes itself -- names, fixed syntax and the PADDING before a help comment, which
+    append_value_completion_and_help computes from the line written so far -- and [NCm t] a description text written
+    through single_line_styled_str after "# " (the about above an export extern; the help at the end of an argument's
+    line, for options AND positionals: both call paths go through the same function of the model).  [nu_plain c]: c is none
+    of the bytes 34 (double quote), 39 (single quote), 96 (backtick), 92 (backslash), 35 (hash); [nu_class c]: every bin
+    name, command name and alias, short, long, alias, argument id and possible value of the tree consists of such bytes. *)
+From ClapModel Require Complete.NushellModel Complete.NushellProofs Complete.NushellLexProofs.
+
+(** the fixed text of the module -- the padding included -- does not depend on the description texts *)
+Theorem C17_nushell_script_fixed_text : forall c d,
+  NushellProofs.nu_pieces c (erase_desc d) = map NushellLexProofs.nperase (NushellProofs.nu_pieces c d).
+Proof. exact NushellLexProofs.nu_pieces_erase. Qed.
+Print Assumptions C17_nushell_script_fixed_text.
+
+(** every description text of the whole module is read by the nushell lexer as literal payload only: the events of
+    the module are those of the fixed text plus, per slot, [Lit] events carrying the flattened text ([npevents]);
+    the module ends between words (every string and comment is closed) *)
+Theorem C17_nushell_script_texts_literal : forall c d,
+  c_bin c <> None -> AotProofs.bins_built c -> NushellLexProofs.nu_class c = true ->
+  exists s, NushellModel.nushell_script c d = Some s /\
+    events nu_step NB s = NushellLexProofs.npevents NB (NushellProofs.nu_pieces c d) /\
+    skeleton (events nu_step NB s) = NushellLexProofs.npskel NB (NushellProofs.nu_pieces c d) /\
+    final nu_step NB s = NB.
+Proof. exact NushellLexProofs.nu_texts_literal. Qed.
+Print Assumptions C17_nushell_script_texts_literal.
+
+(** the token skeleton (and the final lexer state) of the ENTIRE generated module is the same for any two
+    assignments of description texts with the same presence shape (emptiness does not matter) *)
+Theorem C17_nushell_script_same_skeleton : forall c d1 d2,
+  c_bin c <> None -> AotProofs.bins_built c -> NushellLexProofs.nu_class c = true -> erase_desc d1 = erase_desc d2 ->
+  exists s1 s2, NushellModel.nushell_script c d1 = Some s1 /\ NushellModel.nushell_script c d2 = Some s2 /\
+    skeleton (events nu_step NB s1) = skeleton (events nu_step NB s2) /\
+    final nu_step NB s1 = final nu_step NB s2.
+Proof. exact NushellLexProofs.nu_text_invariance. Qed.
+Print Assumptions C17_nushell_script_same_skeleton.
+
+(** the pair of modules the harness generates for the oracle (texts as given / innocuous text of the same
+    emptiness) is an instance *)
+Theorem C17_nushell_script_adversarial_innocuous : forall c d,
+  c_bin c <> None -> AotProofs.bins_built c -> NushellLexProofs.nu_class c = true ->
+  exists s1 s2, NushellModel.nushell_script c d = Some s1 /\ NushellModel.nushell_script c (innocuous_desc d) = Some s2 /\
+    skeleton (events nu_step NB s1) = skeleton (events nu_step NB s2) /\
+    final nu_step NB s1 = final nu_step NB s2.
+Proof. exact NushellLexProofs.nu_adversarial_innocuous. Qed.
+Print Assumptions C17_nushell_script_adversarial_innocuous.
+
+(** [Command::build] keeps a tree in the class *)
+Theorem C17_nushell_build_keeps_class : forall c bin b,
+  build (set_bin_name c bin) = Some b -> NushellLexProofs.nu_class c = true ->
+  PathTableLex.plainl NushellLexProofs.nu_plain bin = true -> NushellLexProofs.nu_class b = true.
+Proof. exact NushellLexProofs.build_nu_class. Qed.
+Print Assumptions C17_nushell_build_keeps_class.
+
+(** the same at the level of the command tree the user wrote: [generate_nushell c d bin] = [set_bin_name] +
+    [Command::build] (tree by [AotTree.build], texts by [dbuild]) + the generator; class on the SOURCE tree and
+    the bin name; [generate] succeeds on both decorations and the two modules have the same token skeleton *)
+Theorem C17_nushell_generate_same_skeleton : forall c d1 d2 bin,
+  NushellLexProofs.nu_class c = true -> PathTableLex.plainl NushellLexProofs.nu_plain bin = true ->
+  erase_desc d1 = erase_desc d2 ->
+  exists s1 s2, NushellModel.generate_nushell c d1 bin = Some s1 /\ NushellModel.generate_nushell c d2 bin = Some s2 /\
+    skeleton (events nu_step NB s1) = skeleton (events nu_step NB s2) /\
+    final nu_step NB s1 = final nu_step NB s2.
+Proof. exact NushellLexProofs.generate_nushell_text_invariance_src. Qed.
+Print Assumptions C17_nushell_generate_same_skeleton.
+
+(** satisfiable: a user tree with an option (short, long, visible alias, possible values), a positional and a
+    subcommand; quotes of all kinds, backticks, hashes, backslashes, command substitutions, CR and LF in every slot
+    against innocuous text; both modules exist and differ *)
+Theorem C17_nushell_generate_nonvacuous :
+  NushellLexProofs.nu_class NushellLexProofs.nx_user = true /\
+  PathTableLex.plainl NushellLexProofs.nu_plain [109; 121; 45; 97; 112; 112] = true /\
+  erase_desc NushellLexProofs.nx_adv = erase_desc NushellLexProofs.nx_inn /\
+  NushellLexProofs.nx_adv <> NushellLexProofs.nx_inn /\
+  exists s1 s2,
+    NushellModel.generate_nushell NushellLexProofs.nx_user NushellLexProofs.nx_adv [109; 121; 45; 97; 112; 112] = Some s1 /\
+    NushellModel.generate_nushell NushellLexProofs.nx_user NushellLexProofs.nx_inn [109; 121; 45; 97; 112; 112] = Some s2 /\
+    s1 <> s2.
+Proof. exact NushellLexProofs.generate_nushell_text_invariance_hyps. Qed.
+Print Assumptions C17_nushell_generate_nonvacuous.
+
+(** the hypotheses of the theorems about a built tree are satisfiable (the built example tree and its built texts) *)
+Theorem C17_nushell_script_nonvacuous :
+  exists b, build (set_bin_name NushellLexProofs.nx_user [109; 121; 45; 97; 112; 112]) = Some b /\
+    c_bin b <> None /\ AotProofs.bins_built b /\ NushellLexProofs.nu_class b = true /\
+    erase_desc (dbuild (set_bin_name NushellLexProofs.nx_user [109; 121; 45; 97; 112; 112]) NushellLexProofs.nx_adv) =
+    erase_desc (dbuild (set_bin_name NushellLexProofs.nx_user [109; 121; 45; 97; 112; 112]) NushellLexProofs.nx_inn) /\
+    NushellModel.nushell_script b (dbuild (set_bin_name NushellLexProofs.nx_user [109; 121; 45; 97; 112; 112]) NushellLexProofs.nx_adv) <>
+    NushellModel.nushell_script b (dbuild (set_bin_name NushellLexProofs.nx_user [109; 121; 45; 97; 112; 112]) NushellLexProofs.nx_inn).
+Proof. exact NushellLexProofs.nu_text_invariance_hyps. Qed.
+Print Assumptions C17_nushell_script_nonvacuous.
+
+(** class boundary: an argument id containing a double quote is written unescaped; the help comment after it is then
+    read inside a string literal and a double quote in the TEXT closes it (replayed on the real generator: same module) *)
+Theorem C17_nushell_script_quote_in_name_refuted :
+  exists c d1 d2 bin s1 s2,
+    NushellLexProofs.nu_class c = false /\ erase_desc d1 = erase_desc d2 /\
+    NushellModel.generate_nushell c d1 bin = Some s1 /\ NushellModel.generate_nushell c d2 bin = Some s2 /\
+    skeleton (events nu_step NB s1) <> skeleton (events nu_step NB s2).
+Proof. exact NushellLexProofs.nushell_quote_in_name_refuted. Qed.
+Print Assumptions C17_nushell_script_quote_in_name_refuted.
+(* ---- end nushell generator model ---- *)
 
 (* ---- zsh generator model ---- *)
 (** Whole-script structure invariance for zsh, level 1 (shell words).  [Complete/ZshModel.v] is a byte-exact model of
